@@ -5,12 +5,18 @@
 (* reached and every enabled action, the observed outputs and post-state.  *)
 (* TLC re-executes every recorded edge with SioServer's own Do() and       *)
 (* demands equality of the complete projected state and of all outputs;    *)
-(* it also evaluates every invariant of SioServer on every implementation  *)
-(* state (ghosts evolve by GhostNext along the implementation's edges).    *)
+(* with WithGhosts it also evaluates every invariant of SioServer on every *)
+(* implementation state (ghosts evolve by GhostNext along the              *)
+(* implementation's edges) - used for trace forests, where each node has   *)
+(* one history.  For exhaustive graphs the ghosts are frozen: once every   *)
+(* edge is validated and the state counts agree (G3), the implementation's *)
+(* graph IS the specification's graph, on which G1 checked the invariants  *)
+(* for every history.                                                      *)
 (***************************************************************************)
 EXTENDS SioServer, Json, IOUtils
 
 G == JsonDeserialize(IOEnv.GRAPH_FILE)
+WithGhosts == IOEnv.WITH_GHOSTS = "1"
 
 VARIABLE node
 gvars == <<st, gh, node>>
@@ -55,7 +61,7 @@ GNext == \E i \in ToSet(G.out[node]) :
             LET e == G.edges[i]
             IN  /\ node' = e.dst
                 /\ st' = NodeSt(e.dst)
-                /\ gh' = GhostNext(st, gh, e.a)
+                /\ gh' = IF WithGhosts THEN GhostNext(st, gh, e.a) ELSE gh
 
 GSpec == GInit /\ [][GNext]_gvars
 =============================================================================
